@@ -1,17 +1,283 @@
 (* C16 - every documented annotation form is accepted with its structure intact
    (+ the annotation part of C01: the annotation front end never faults).
-   Only statements closed by `exact` + Print Assumptions live here. *)
-From Coq Require Import List NArith Bool.
+   Only statements closed by `exact` + Print Assumptions live here (and vm_compute witnesses of `_refuted`).
+
+   Vocabulary:  Spec/AnnGrammar.v   dtype / dstat = the documented grammar, show_type / show_line = canonical text,
+                                    embed_one / embed_stat = the implementation tree the text must be read as,
+                                    abs = reading an implementation tree back as a documented type;
+                Model/AnnParser.v   ann_parse_line (ParserLine), parse_type (parserOneType + rest-of-line comment),
+                                    parse_fragment (ParseCommentFragment);  Model/AnnPrint.v  type_convert_str. *)
+From Coq Require Import String List NArith Bool.
 From LH Require Import Base.Bytes Base.Res Model.AnnLexer Model.AnnAst Model.AnnParser Model.AnnPrint Spec.AnnGrammar
-  Proofs.AnnTotal.
+  Proofs.AnnLexFacts Proofs.AnnTotal Proofs.AnnRoundtrip Proofs.AnnStat Proofs.AnnPlain Proofs.AnnFragment
+  Proofs.AnnPrinter Proofs.AnnLine.
 Import ListNotations.
 Local Open Scope N_scope.
+Local Open Scope string_scope.
 
-(* ---- totality (cited by Properties/C01.v) *)
+(* ================================================================== types: unbounded depth *)
+
+(* every documented type, printed canonically, is read back as exactly the expected tree, with no comment left *)
+Theorem C16_type_roundtrip :
+  forall t, doc_type t = true ->
+    parse_type (fuel_of (show_type t)) (show_type t) = Ok (inl (embed_one t, [])).
+Proof. exact type_roundtrip. Qed.
+Print Assumptions C16_type_roundtrip.
+
+(* ... and that tree denotes the documented type (singleton MultiTypes forgotten): structure intact *)
+Theorem C16_embed_faithful : forall t, doc_type t = true -> abs (embed_one t) = t.
+Proof. exact abs_embed_one. Qed.
+Print Assumptions C16_embed_faithful.
+
+(* ================================================================== statements *)
+
+Definition C16_stat_roundtrip_full : Prop :=
+  forall s, doc_stat s = true ->
+    ann_parse_line (fuel_of (show_line s)) (show_line s) = Ok (inl (embed_stat s)).
+
+(* proved for all ten statement forms (type, alias, class, overload, field, param, return, generic, vararg, enum),
+   all modifiers and any trailing comment; the only exclusion is a comment on an enum line (refuted below) *)
+Theorem C16_stat_roundtrip :
+  forall s, doc_stat s = true -> enum_with_comment s = false ->
+    ann_parse_line (fuel_of (show_line s)) (show_line s) = Ok (inl (embed_stat s)).
+Proof. exact stat_roundtrip. Qed.
+Print Assumptions C16_stat_roundtrip.
+
+(* the trailing @comment is returned verbatim, whatever bytes it contains *)
+Theorem C16_comment_kept :
+  forall s x, doc_stat s = true -> enum_with_comment s = false -> dstat_comment s = Some x ->
+    exists a, ann_parse_line (fuel_of (show_line s)) (show_line s) = Ok (inl a) /\ stat_comment a = x.
+Proof. exact comment_kept. Qed.
+Print Assumptions C16_comment_kept.
+
+(* `---@enum start @c`: GetRemainComment is called without a look-ahead token, the comment keeps " @" *)
+Theorem C16_enum_comment_refuted : ~ C16_stat_roundtrip_full.
+Proof.
+  intros H. specialize (H (DSEnum true (Some [99])) eq_refl). vm_compute in H. discriminate H.
+Qed.
+Print Assumptions C16_enum_comment_refuted.
+
+Example C16_enum_comment_witness :
+  ann_parse_line (fuel_of (show_line (DSEnum true (Some [99])))) (show_line (DSEnum true (Some [99])))
+  = Ok (inl (SEnum 1 [32; 64; 99])).                         (* " @c" instead of "c" *)
+Proof. vm_compute. reflexivity. Qed.
+
+(* the documented rule TYPE[] applied twice: `string[][]` is silently read as `string[]` + comment "[]" *)
+Theorem C16_nested_array_refuted :
+  exists s, doc_stat s = true /\ stat_nested_array s = true /\
+            ann_parse_line (fuel_of (show_line_plain s)) (show_line_plain s)
+            = Ok (inl (SType [(false, false, AMulti [AArray (ANormal (bs "string") true)])] (bs "[]"))) /\
+            ann_parse_line (fuel_of (show_line_plain s)) (show_line_plain s) <> Ok (inl (embed_stat s)).
+Proof.
+  exists (DSType [(false, false, DArray (DArray (DName (bs "string"))))] None).
+  split; [reflexivity|]. split; [reflexivity|]. split; [vm_compute; reflexivity|]. vm_compute. discriminate.
+Qed.
+Print Assumptions C16_nested_array_refuted.
+
+(* the documented grammar written naively (TYPE[] applied to any TYPE, no extra parentheses): accepted with its
+   structure intact unless a nested array occurs -- nested_array is the ONLY class of documented lines that fails *)
+Theorem C16_stat_roundtrip_plain :
+  forall s, doc_stat s = true -> enum_with_comment s = false -> stat_nested_array s = false ->
+    ann_parse_line (fuel_of (show_line_plain s)) (show_line_plain s) = Ok (inl (embed_stat s)).
+Proof. exact stat_roundtrip_plain. Qed.
+Print Assumptions C16_stat_roundtrip_plain.
+
+(* the same through ParseCommentFragment, for the comment line "-@..." (what leg c16.line observes) *)
+Theorem C16_stat_fragment_roundtrip :
+  forall s lno, doc_stat s = true -> enum_with_comment s = false -> stat_nested_array s = false ->
+    parse_fragment [(lno, (s_head ++ show_line_plain s)%list)] = Ok (mkFrag [embed_stat s] [lno] []).
+Proof. exact stat_fragment_roundtrip_plain. Qed.
+Print Assumptions C16_stat_fragment_roundtrip.
+
+(* without a nested array the naive printer is the canonical one *)
+Example C16_plain_is_canonical :
+  show_line_plain (DSField (Some 1) false (bs "f") (DArray (DUnion [DName (bs "a"); DName (bs "b")])) None)
+  = show_line (DSField (Some 1) false (bs "f") (DArray (DUnion [DName (bs "a"); DName (bs "b")])) None).
+Proof. reflexivity. Qed.
+
+(* ================================================================== fragments: line isolation *)
+
+(* a block of lines whose continuation lines ("-| ...") all follow a statement of the block contributes the same
+   statements, lines and errors whatever was read before it *)
+Theorem C16_isolation_general :
+  forall ls fr frx, safe_from frx ls = true ->
+    frag_loop (frag_app fr frx) ls = do r <- frag_loop frx ls; Ok (frag_app fr r).
+Proof. exact isolation_general. Qed.
+Print Assumptions C16_isolation_general.
+
+(* a malformed line yields its own error and nothing else: the statements / lines of the neighbours are the ones
+   they have without it, the errors are theirs plus the one of the malformed line, in order *)
+Theorem C16_line_isolation :
+  forall ls1 bad ls2 p1 p2 e,
+    parse_fragment ls1 = Ok p1 -> parse_fragment ls2 = Ok p2 ->
+    is_cont_line bad = false -> frag_step frag_empty bad = Ok (mkFrag [] [] [e]) ->
+    self_contained ls2 = true ->
+    parse_fragment (ls1 ++ bad :: ls2) =
+    Ok (mkFrag (f_stats p1 ++ f_stats p2) (f_lines p1 ++ f_lines p2) (f_errs p1 ++ e :: f_errs p2)).
+Proof. exact line_isolation. Qed.
+Print Assumptions C16_line_isolation.
+
+(* the executable form used by the check (leg c16.fragment): outside the two classes below, ParseCommentFragment
+   = every unit (a line + its continuation lines) read on its own, Stats and Lines aligned *)
+Theorem C16_fragment_spec_agrees :
+  forall ls, frag_cont_after_bad ls = false -> frag_lines_desync ls = false ->
+    parse_fragment ls = parse_fragment_spec ls.
+Proof. exact fragment_spec_agrees. Qed.
+Print Assumptions C16_fragment_spec_agrees.
+
+Definition C16_fragment_spec_full : Prop := forall ls, parse_fragment ls = parse_fragment_spec ls.
+
+(* class cont_after_bad: the continuation line after a malformed alias line is appended to the PREVIOUS alias *)
+Theorem C16_cont_after_bad_refuted :
+  exists ls, frag_cont_after_bad ls = true /\ frag_lines_desync ls = false /\
+             parse_fragment ls <> parse_fragment_spec ls.
+Proof.
+  exists [(1, bs "-@alias A string"); (2, bs "-@alias B ?"); (3, bs "-| 'x'")].
+  split; [vm_compute; reflexivity|]. split; [vm_compute; reflexivity|]. vm_compute. discriminate.
+Qed.
+Print Assumptions C16_cont_after_bad_refuted.
+
+(* class alias_lines: clearEmpytAlias removes an alias without type from Stats but not its line from Lines *)
+Theorem C16_alias_lines_refuted :
+  exists ls fr, frag_cont_after_bad ls = false /\ frag_lines_desync ls = true /\
+                parse_fragment ls = Ok fr /\ length (f_stats fr) <> length (f_lines fr) /\
+                parse_fragment ls <> parse_fragment_spec ls.
+Proof.
+  exists [(1, bs "-@alias A"); (2, bs "-@type string")]. eexists.
+  split; [vm_compute; reflexivity|]. split; [vm_compute; reflexivity|]. split; [vm_compute; reflexivity|].
+  split; [cbn; discriminate|]. vm_compute. discriminate.
+Qed.
+Print Assumptions C16_alias_lines_refuted.
+
+Theorem C16_fragment_spec_full_refuted : ~ C16_fragment_spec_full.
+Proof.
+  intros H. specialize (H [(1, bs "-@alias A"); (2, bs "-@type string")]). vm_compute in H. discriminate H.
+Qed.
+Print Assumptions C16_fragment_spec_full_refuted.
+
+(* ================================================================== the implementation printer *)
+
+Definition C16_impl_printer_full : Prop :=
+  forall a, doc_type (abs a) = true ->
+    exists a', parse_type (fuel_of (type_convert_str a)) (type_convert_str a) = Ok (inl (a', [])) /\ abs a' = abs a.
+
+(* proved part: no fun type, no string constant, no parenthesised array item, no union directly in a union *)
+Theorem C16_impl_printer_partial :
+  forall a, printer_guard a = true ->
+    exists a', parse_type (fuel_of (type_convert_str a)) (type_convert_str a) = Ok (inl (a', [])) /\ abs a' = abs a.
+Proof. exact impl_printer_partial. Qed.
+Print Assumptions C16_impl_printer_partial.
+
+(* the same through ParseCommentFragment (what leg c16.print observes) *)
+Theorem C16_impl_printer_line :
+  forall a lno, printer_guard a = true ->
+    parse_fragment [(lno, (s_head ++ k_type ++ type_convert_str a)%list)]
+    = Ok (mkFrag [SType [(false, false, embed_one (abs a))] []] [lno] []).
+Proof. exact printer_fragment. Qed.
+Print Assumptions C16_impl_printer_line.
+
+(* `(string|number)[]` prints `string | number[]`, which is `string | (number[])` *)
+Theorem C16_printer_union_refuted :
+  exists a, doc_type (abs a) = true /\ has_paren_item (abs a) = true /\
+            type_convert_str a = bs "string | number[]" /\
+            exists a', parse_type (fuel_of (type_convert_str a)) (type_convert_str a) = Ok (inl (a', [])) /\
+                       abs a' = DUnion [DName (bs "string"); DArray (DName (bs "number"))] /\ abs a' <> abs a.
+Proof.
+  exists (AMulti [AArray (AMulti [ANormal (bs "string") true; ANormal (bs "number") true])]).
+  split; [reflexivity|]. split; [reflexivity|]. split; [vm_compute; reflexivity|].
+  eexists. split; [vm_compute; reflexivity|]. split; [vm_compute; reflexivity|]. vm_compute. discriminate.
+Qed.
+Print Assumptions C16_printer_union_refuted.
+
+(* fun types are printed as `function(...)`, which reads back as the name `function` + a comment *)
+Theorem C16_printer_fun_refuted :
+  exists a, doc_type (abs a) = true /\ has_fun (abs a) = true /\
+            type_convert_str a = bs "function(a: string): number" /\
+            parse_type (fuel_of (type_convert_str a)) (type_convert_str a)
+            = Ok (inl (AMulti [ANormal (bs "function") true], bs "(a: string): number")).
+Proof.
+  exists (AMulti [AFun [(bs "a", false, AMulti [ANormal (bs "string") true])] [AMulti [ANormal (bs "number") true]]]).
+  split; [reflexivity|]. split; [reflexivity|]. split; vm_compute; reflexivity.
+Qed.
+Print Assumptions C16_printer_fun_refuted.
+
+(* string constants: '"r"' prints "r" (QuotesFlag lost on reading); "abc" prints abc (a type name) *)
+Theorem C16_printer_const_refuted :
+  exists a, doc_type (abs a) = true /\ has_const (abs a) = true /\
+            exists a', parse_type (fuel_of (type_convert_str a)) (type_convert_str a) = Ok (inl (a', [])) /\
+                       abs a' <> abs a.
+Proof.
+  exists (AMulti [AConst (bs "r") true []]). split; [reflexivity|]. split; [reflexivity|].
+  eexists. split; [vm_compute; reflexivity|]. vm_compute. discriminate.
+Qed.
+Print Assumptions C16_printer_const_refuted.
+
+Theorem C16_impl_printer_full_refuted : ~ C16_impl_printer_full.
+Proof.
+  intros H. destruct (H (AMulti [AConst (bs "r") true []]) eq_refl) as (a' & H1 & H2).
+  vm_compute in H1. injection H1 as <-. vm_compute in H2. discriminate H2.
+Qed.
+Print Assumptions C16_impl_printer_full_refuted.
+
+(* ================================================================== totality (cited by Properties/C01.v) *)
+
+(* ParserLine on ANY bytes: returns a statement or a ParseAnnotateErr; no runtime panic reaches the type assertion
+   of its recover(), no loop runs away (fuel_of is linear in the length of the line) *)
 Theorem C16_line_total : forall line, exists r, ann_parse_line (fuel_of line) line = Ok r.
 Proof. exact ann_parse_line_no_fault. Qed.
 Print Assumptions C16_line_total.
 
+Theorem C16_type_total : forall text, exists r, parse_type (fuel_of text) text = Ok r.
+Proof. exact parse_type_no_fault. Qed.
+Print Assumptions C16_type_total.
+
+(* ParseCommentFragment on ANY list of byte lines (incl. the continuation-line path that runs outside recover()) *)
 Theorem C16_fragment_total : forall lines, exists fr, parse_fragment lines = Ok fr.
 Proof. exact parse_fragment_no_fault. Qed.
 Print Assumptions C16_fragment_total.
+
+Theorem C16_lex_total :
+  forall l, (exists t l', next_token l = Ok (t, l')) /\ (exists l', look_ahead l = Ok l').
+Proof. exact ann_lex_total. Qed.
+Print Assumptions C16_lex_total.
+
+(* ================================================================== non-vacuity of the guards *)
+Definition ex_type : dtype :=
+  DUnion [DName (bs "string");
+          DArray (DUnion [DName (bs "a.b");
+                          DTable (DName (bs "k"))
+                                 (DFun [(bs "x", true, Some (DName (bs "y"))); (bs "...", false, None)]
+                                       [DName (bs "r"); DArray (DArray (DConst (bs "q") true))])]);
+          DFun [] []].
+(* prints: string | (a.b | table<k, (fun(x?: y, ...): r, ('"q"'[])[])>)[] | (fun()) *)
+Example C16_doc_type_inhabited : doc_type ex_type = true.
+Proof. reflexivity. Qed.
+
+Example C16_doc_stat_inhabited :
+  doc_stat (DSType [(true, true, DFun [] [DName (bs "a")]); (false, true, ex_type);
+                    (false, false, DFun [(bs "type", false, Some (DFun [] []))] [DName (bs "a"); DName (bs "b")])]
+                   (Some (bs "hello @ world "))) = true /\
+  doc_stat (DSField None true (bs "type") ex_type (Some [228; 184; 173])) = true /\
+  doc_stat (DSParam true (bs "const") true ex_type None) = true /\
+  doc_stat (DSReturn [(DFun [] [DName (bs "a")], true); (ex_type, false)] (Some [])) = true /\
+  doc_stat (DSGeneric [(bs "T", Some (bs "Base")); (bs "K", None)] (Some (bs "c"))) = true /\
+  doc_stat (DSClass (bs "Man") [bs "People"; bs "Team"] (Some (bs "c"))) = true.
+Proof. repeat split. Qed.
+
+Example C16_printer_guard_inhabited :
+  printer_guard (AMulti [ATable (AMulti [ANormal (bs "string") true])
+                                (AMulti [AArray (ANormal (bs "People") true)]);
+                         AArray (AMulti [ATableEmpty]); ANormal (bs "...") true]) = true.
+Proof. reflexivity. Qed.
+
+Example C16_self_contained_inhabited :
+  self_contained [(4, bs "- plain comment"); (5, bs "-@alias M"); (6, bs "-| 'r' # read"); (7, bs "-| 'w'");
+                  (8, bs "-@type ?"); (9, bs "-@field x string @c")] = true /\
+  frag_step frag_empty (3, bs "-@param ") =
+  Ok (mkFrag [] [] [(3, 8%nat, mkErr 2 KEOF (bs "annotate warn : syntax error near 'EOF'") 0)]).
+Proof. split; vm_compute; reflexivity. Qed.
+
+Example C16_fragment_guard_inhabited :
+  let ls := [(1, bs "-@alias M"); (2, bs "-| 'r' # read"); (3, bs "-@type ?"); (4, bs "-@class A : B @c")] in
+  frag_cont_after_bad ls = false /\ frag_lines_desync ls = false.
+Proof. split; vm_compute; reflexivity. Qed.
